@@ -117,9 +117,9 @@ PROPS = {
   ],
   "exhaustive": {"quick": False, "thorough": False},
   "nontrivial": {"fn": lambda js: cnt(js, "indices") >= 1000 or (cnt(js, "mirror.faces") >= 50 and cnt(js, "mirror.edges") >= 50),
-                 "text": "part conv: each case evaluates ~25 conversion identities (static and member forms of halfedge_handle/halfface_handle/edge_handle/face_handle/opposite/subidx) on a range of indices; quick = blocks covering [0,2^20), a strided sweep to 2^30 and +-2048 around every power of two; thorough = EVERY index in [0,2^30) in 256 chunks of 2^22 (that sub-space is enumerated completely). part mesh: histories as C01; after every step every live edge/face is checked for the mirror identities (opposite halfedge swaps ends, opposite halfface = reversed opposites, closed loops, the two sides' circulators run the same cycle in opposite directions, next/prev inverse). non-trivial = >=1000 indices or >=50 faces and edges checked; distinct by range / operation digest"},
+                 "text": "part conv: each case evaluates ~25 conversion identities (static and member forms of halfedge_handle/halfface_handle/edge_handle/face_handle/opposite/subidx) on a range of indices; quick = blocks covering [0,2^20), a strided sweep to 2^30 and +-2048 around every power of two; thorough = EVERY index in [0,2^30) in 256 chunks of 2^22 (that sub-space is enumerated completely). part mesh: histories as C01; after every step every live edge/face is checked for the mirror identities (opposite halfedge swaps ends, opposite halfface = reversed opposites, closed loops, the two sides' circulators run the same cycle in opposite directions, next/prev inverse); every third step a connected halfedge path (open at the wrap-around junction two times out of three) is submitted to add_face WITH topology check: an accepted face must be a closed loop. non-trivial = >=1000 indices or >=50 faces and edges checked; distinct by range / operation digest"},
   "floor": {"quick": 200, "thorough": 3000},
-  "min_counts": {"indices": 4000000, "mirror.faces": 50000, "mirror.valence.1": 20, "mirror.valence.2": 20, "mirror.valence.7": 20},
+  "min_counts": {"indices": 4000000, "mirror.faces": 50000, "mirror.valence.1": 20, "mirror.valence.2": 20, "mirror.valence.7": 20, "mirror.checked-probes.open": 2000, "mirror.checked-probes.rejected": 2000},
   "assumptions": COMMON_ASSUME + ["UBSan reports signed overflow/shift errors in the conversion arithmetic; indices above 2^30 are outside the quantifier"],
  },
  "C09": {
